@@ -1543,6 +1543,19 @@ def reuse_histories():
                     for last in enabled_ops(t2):
                         if last[0] in ("mkfile", "mkdir") or (last[0] == "movein" and last[1] != "t"):
                             out.append((ti, tuple(first + mid + [("delete", v), last])))
+                # the entry leaves by a move out instead (its inode lives on elsewhere) and its path is taken again: by a
+                # new entry, or by a rename / move in onto the old path
+                if ("moveout", v) in enabled_ops(t1):
+                    t2 = apply_model(t1, ("moveout", v))
+                    for last in enabled_ops(t2):
+                        dest = last[2] if last[0] in ("rename", "movein") else last[1] if last[0] in ("mkfile", "mkdir") else None
+                        if dest == v:
+                            out.append((ti, tuple(first + [("moveout", v), last])))
+                        elif last[0] in ("mkfile", "mkdir") and len(last[1]) > 1:
+                            t3 = apply_model(t2, last)
+                            for last2 in enabled_ops(t3):
+                                if last2[0] == "rename" and last2[1] == last[1] and last2[2] == v:
+                                    out.append((ti, tuple(first + [("moveout", v), last, last2])))
     return out
 
 
